@@ -43,11 +43,23 @@ Theorem C20_cache_never_panics :
 Proof. exact cache_never_panics. Qed.
 Print Assumptions C20_cache_never_panics.
 
-(* The invariant behind it is inductive over every step of every actor. *)
+(* The invariant behind it — sketch and doorkeeper well-formed, every stored deadline and every tracked
+   admission time taken at or before "now", ring and queue hold u64 hashes — is inductive over every
+   step of every actor. *)
 Theorem C20_invariant_is_inductive :
   forall c st l st' o, NP st -> label_u64 l -> cstep c st l = StepOk st' o -> NP st'.
 Proof. exact NP_step. Qed.
 Print Assumptions C20_invariant_is_inductive.
+
+Theorem C20_admission_times_invariant :
+  forall c st l st' o, SO st -> cstep c st l = StepOk st' o -> SO st'.
+Proof. exact SO_step. Qed.
+Print Assumptions C20_admission_times_invariant.
+
+Theorem C20_no_step_panics :
+  forall c st l w, NP st -> SO st -> label_u64 l -> cstep c st l <> StepPanic w.
+Proof. exact no_step_panics. Qed.
+Print Assumptions C20_no_step_panics.
 
 (* The eviction loop, whatever samples the policy's hash map yields (any legal oracle), never
    indexes an empty sample. *)
